@@ -1218,6 +1218,38 @@ var ckptWindowScripts = func() (l [][2]string) {
 	return l
 }()
 
+// ckptSweepScripts (thorough tier, -sweep): the error-exit / process-death windows of the checkpoint
+// protocol enumerated: an application commit injected at the k-th log record of the call (k = 1..8: before
+// the copy, between the copy and the PRAGMA, after it, ...) x the call cancelled / the process killed / the
+// bump made busy at each trace point x the four modes x a WAL that is / is not completely backfilled and
+// read at mark 0 when the session starts x what follows (a commit that may restart the WAL again, or
+// nothing). Every acknowledged sync afterwards must restore to the source.
+func ckptSweepScripts() (l [][2]string) {
+	pre := []string{"OPEN S W W SW", "OPEN S W SW REOPEN W W ACK-PASSIVE OPEN S SW"}
+	for pi, p := range pre {
+		for _, mode := range []string{"PASSIVE", "FULL", "RESTART", "TRUNCATE"} {
+			for k := 1; k <= 8; k++ {
+				inj := fmt.Sprintf("INJ=%d", k)
+				if pi == 1 {
+					inj = fmt.Sprintf("INJ1=%d", k)
+				}
+				for _, pt := range []string{"chk.try", "ckpt.run", "pt.ckpt.postcopy", "pt.ckpt.postcopied", "pt.ckpt.bump"} {
+					if strings.HasPrefix(pt, "pt.ckpt.postcop") && (mode == "PASSIVE" || mode == "TRUNCATE") {
+						continue
+					}
+					label := fmt.Sprintf("sweep:%s:pre%d", mode, pi)
+					l = append(l, [2]string{label + ":cancel", fmt.Sprintf("%s %s CANCELP=%s CK-%s W S SW W SW", p, inj, pt, mode)})
+					l = append(l, [2]string{label + ":kill", fmt.Sprintf("%s %s KILLP=%s CK-%s W OPEN S SW W SW", p, inj, pt, mode)})
+					if pt == "pt.ckpt.bump" {
+						l = append(l, [2]string{label + ":busy", fmt.Sprintf("%s %s INJW=%s CK-%s WT- S SW W SW", p, inj, pt, mode)})
+					}
+				}
+			}
+		}
+	}
+	return l
+}
+
 // snapAfterReopenScripts: a snapshot taken by a NEW DB object (nothing synced yet in its session,
 // or only a no-op sync) while the WAL holds committed frames beyond the last replicated position:
 // the snapshot is labelled with that position and must hold exactly its state.
@@ -1519,6 +1551,7 @@ func main() {
 	concurrent := fl.Bool("concurrent", false, "mode c02: also run histories with a real concurrent writer goroutine (schedule-dependent, not replayable)")
 	forcecfg := fl.String("forcecfg", "", "use this configuration (ps,autovacuum,min,trunc,intervalNs,maxb) instead of a random one")
 	script := fl.String("script", "", "mode script: space-separated op tokens to run after OPEN (e.g. 'S CK-RESTART W ACK-TRUNCATE DDL SW')")
+	sweep := fl.Bool("sweep", false, "mode c01: append the enumerated error-exit / kill windows of the checkpoint protocol to the scripted histories (thorough tier)")
 	scriptCfg := fl.String("cfg", "4096,0,10,0,0,0", "mode script: ps,autovacuum,minCheckpointPageN,truncatePageN,checkpointIntervalNs,maxSyncWALBytes")
 	if err := fl.Parse(os.Args[1:]); err != nil {
 		os.Exit(2)
@@ -1533,6 +1566,9 @@ func main() {
 		fmt.Sscanf(*forcecfg, "%d,%d,%d,%d,%d,%d", &c.PageSize, &c.AutoVacuum, &c.MinCheckpointPageN, &c.TruncatePageN, &ci, &c.MaxSyncWALBytes)
 		c.CheckpointInterval = time.Duration(ci)
 		forcedConfig = &c
+	}
+	if *sweep {
+		ckptWindowScripts = append(ckptWindowScripts, ckptSweepScripts()...)
 	}
 	cw, err := NewCaseWriter(filepath.Join(*out, "cases.txt"))
 	if err != nil {
